@@ -161,13 +161,14 @@ func preamble(ref []byte, size int) []byte {
 }
 
 // ctlFrames: the byte frames of a well-formed control session (handshake first).
-// adm: the session logs in with the all-privileges account and aims its disconnect request at a user ID nobody has
-// (a privileged hostile client must not hurt the well-behaved ones either; kicking a sentinel would be legitimate).
+// adm: the session logs in with the operator account "op" (every privilege except account administration) and aims
+// its disconnect request at a user ID nobody has.  The sentinels' accounts cannot be disconnected, so even a
+// mangled stream that happens to decode to a kick of a sentinel must leave them alone.
 func ctlFrames(rng *rand.Rand, adm bool) [][]byte {
 	id := uint32(10)
 	login, pw, victim := "guest", []byte(nil), 1
 	if adm {
-		login, pw, victim = "admin", sim.Obfuscate([]byte("admin")), 0x7777
+		login, pw, victim = "op", sim.Obfuscate([]byte("op")), 0x7777
 	}
 	tx := func(typ int, f ...sim.F) []byte { id++; return sim.NewTx(typ, id, f...).Encode() }
 	fr := [][]byte{
